@@ -19,21 +19,47 @@ package tmmirror
 //@     pmsg(mapvals(v.Precommits)[h]) == precommitMsg(v.H, v.R, h)
 
 //@ func Mirror.handleFuturePrevoteProofs
-//@   property C05
-//@   option explicit-panics allowed
+//@   property C05 C09
 //@   requires m.vs != nil && m.rs != nil && m.cmspScheme != nil && m.sigScheme != nil
 //@   requires p.Height == vlReq.H && p.Round == vlReq.R
-//@   modifies memory except Mirror
+//@   modifies memory except Mirror, ghost pbits
 //@   loop 1 invariant known-validator-keys-are-used: len(vlReq.VRV.ValidatorSet.PubKeys) > 0 ==> pubKeys == vlReq.VRV.ValidatorSet.PubKeys
 //@   loop 1 invariant full-map-verified: fullMap != nil && fresh(fullMap) && fullProofsOK(fullMap, pubKeys) && distinctProofs(fullMap) &&
 //@       (forall h string :: {rawdom(fullMap)[h]} h in fullMap ==> pmsg(mapvals(fullMap)[h]) == prevoteMsg(p.Height, p.Round, h))
 
 //@ func Mirror.handleFuturePrecommitProofs
-//@   property C05
-//@   option explicit-panics allowed
+//@   property C05 C09
 //@   requires m.vs != nil && m.rs != nil && m.cmspScheme != nil && m.sigScheme != nil
 //@   requires p.Height == vlReq.H && p.Round == vlReq.R
-//@   modifies memory except Mirror
+//@   modifies memory except Mirror, ghost pbits
 //@   loop 1 invariant known-validator-keys-are-used: len(vlReq.VRV.ValidatorSet.PubKeys) > 0 ==> pubKeys == vlReq.VRV.ValidatorSet.PubKeys
 //@   loop 1 invariant full-map-verified: fullMap != nil && fresh(fullMap) && fullProofsOK(fullMap, pubKeys) && distinctProofs(fullMap) &&
 //@       (forall h string :: {rawdom(fullMap)[h]} h in fullMap ==> pmsg(mapvals(fullMap)[h]) == precommitMsg(p.Height, p.Round, h))
+
+// ---- current-round votes (C05): a message none of whose signatures verifies changes nothing and is not accepted ----
+// getSignaturesToAdd only passes on signatures whose key is not yet in the proof, so a merge that adds nothing means none of
+// them verified: the handlers may file an update for a target only after a merge that increased the proof.
+// The proofs of a view snapshot handed out by the kernel: private clones, each non-nil and verified (ProofInv), no two targets sharing one.
+//@ define snapshotOK(m) = (forall h string :: {rawdom(m)[h]} h in m ==> mapvals(m)[h] != nil && ProofInv(mapvals(m)[h]) &&
+//@     base(pkeys(mapvals(m)[h])) <= top() && base(mapvals(m)[h]) <= top()) && distinctProofs(m)
+//@ func Mirror.getSignaturesToAdd
+//@   property C05
+//@   requires m.cmspScheme != nil
+//@   requires forall h string :: {rawdom(curProofs)[h]} h in curProofs ==> mapvals(curProofs)[h] != nil
+//@   ensures fresh-result: result == nil || fresh(result)
+//@   modifies nothing
+//@   loop 1 invariant result-map-is-private: toAdd == nil || fresh(toAdd)
+//@ func Mirror.handlePrecommitProofs
+//@   property C05 C09
+//@   requires m.cmspScheme != nil && m.sigScheme != nil && m.vs != nil && m.rs != nil
+//@   site mapstore voteUpdates only-after-verified-increase: res.IncreasedSignatures
+//@   rely after Mirror.viewLookupRequests snapshot-proofs-verified: snapshotOK(curPrecommitState.PrecommitProofs)
+//@   loop 2 invariant snapshot-stays-verified: snapshotOK(curProofs) && voteUpdates != nil && fresh(voteUpdates)
+//@   modifies memory except Mirror, ghost pbits
+//@ func Mirror.HandlePrevoteProofs
+//@   property C05 C09
+//@   requires m.cmspScheme != nil && m.sigScheme != nil && m.vs != nil && m.rs != nil
+//@   site mapstore voteUpdates only-after-verified-increase: res.IncreasedSignatures
+//@   rely after Mirror.viewLookupRequests snapshot-proofs-verified: snapshotOK(curPrevoteState.PrevoteProofs)
+//@   loop 2 invariant snapshot-stays-verified: snapshotOK(curProofs) && voteUpdates != nil && fresh(voteUpdates)
+//@   modifies memory except Mirror, ghost pbits
